@@ -297,7 +297,7 @@ def forall(vs, body, patterns=()):
     """ForAll with patterns when z3 accepts them (a pattern may beta-reduce to a non-pattern term)"""
     pats = []
     for p in patterns:
-        if z3.is_app(p) and p.decl().kind() in (z3.Z3_OP_SELECT, z3.Z3_OP_UNINTERPRETED) and not _has_lambda(p):
+        if z3.is_app(p) and p.decl().kind() in (z3.Z3_OP_SELECT, z3.Z3_OP_UNINTERPRETED) and _pattern_ok(p):
             pats.append(p)
     if pats and len(pats) == len(list(patterns)):
         try:
@@ -305,6 +305,26 @@ def forall(vs, body, patterns=()):
         except z3.Z3Exception:
             pass
     return z3.ForAll(vs, body)
+
+
+_BAD_PATTERN_OPS = {z3.Z3_OP_ITE, z3.Z3_OP_AND, z3.Z3_OP_OR, z3.Z3_OP_NOT, z3.Z3_OP_EQ, z3.Z3_OP_IMPLIES, z3.Z3_OP_LE, z3.Z3_OP_LT,
+                    z3.Z3_OP_GE, z3.Z3_OP_GT, z3.Z3_OP_DISTINCT, z3.Z3_OP_XOR}
+
+
+def _pattern_ok(t):
+    stack = [t]
+    seen = set()
+    while stack:
+        x = stack.pop()
+        if z3.is_quantifier(x):
+            return False
+        if x.get_id() in seen:
+            continue
+        seen.add(x.get_id())
+        if z3.is_app(x) and x.decl().kind() in _BAD_PATTERN_OPS:
+            return False
+        stack.extend(x.children())
+    return True
 
 
 def _has_lambda(t):
